@@ -314,7 +314,9 @@ TD_WRAPS = ["{t}", "List[{t}]", "Dict[str, {t}]", "Tuple[{t}, int]", "Optional[{
 # annotations that only a source file can contribute (inference never produces them) and that the renderer must still spell faithfully
 ANN_POOL = ["Callable[[], int]", "Callable[[int, uB], Own]", "Callable[..., Any]", "Optional[Callable[[], NoneType]]", "List[Callable[[int], str]]",
             "Dict[str, Callable[[], uU]]", "Callable[[Callable[[], int]], puP]", "Type[Own]", "Tuple[Callable[[], int], ...]", "Callable[[], OInner]",
-            "Union[Callable[[fFoo], bfQux], int]", "gBox[int]", "gSlot[int]", "List[gSlot[uB]]", "Optional[gBox[Own]]"]
+            "Union[Callable[[fFoo], bfQux], int]", "gBox[int]", "gSlot[int]", "List[gSlot[uB]]", "Optional[gBox[Own]]",
+            # None as an argument of a generic nested inside a generic that is rendered through its repr
+            "Callable[[], Tuple[int, NoneType]]", "Callable[[int], Dict[str, NoneType]]", "Callable[[], Generator[int, NoneType, NoneType]]", "gBox[Tuple[int, NoneType]]"]
 
 
 def gen_td_expr(rng, fresh, fields, depth=0):
